@@ -1160,3 +1160,79 @@ func provedLe(st *State, a, b *Term) bool {
 	bc := &boundsClient{arrLen: map[string]int64{}, dropped: map[string]map[string]bool{}}
 	return bc.prove(st, bc.lin(st, a).add(bc.lin(st, b), -1))
 }
+
+// INFLATE-SLACK: a log block's on-disk length is learned from how many bytes
+// the zlib reader consumed, and the stream's trailer is consumed only when the
+// reader is asked for data beyond the last byte of payload.  The limit put on
+// the inflated data must therefore not be tighter than the total the function
+// later requires the output buffer to have reached (which includes the bytes
+// copied before inflating): limit >= required total, proved from the path.
+func checkInflateSlack(p *Program, r *Report, reach map[*ssa.Function]bool) {
+	n := 0
+	var fns []*ssa.Function
+	for f := range reach {
+		if len(callsDirect(f, "compress/zlib.NewReader")) > 0 {
+			fns = append(fns, f)
+		}
+	}
+	sort.Slice(fns, func(i, j int) bool { return funcKey(fns[i]) < funcKey(fns[j]) })
+	for _, fn := range fns {
+		name := funcKey(fn)
+		bc := &boundsClient{r: r, fn: name, dropped: map[string]map[string]bool{}, arrLen: map[string]int64{},
+			oblOK: map[string]bool{}, oblBad: map[string]string{}, oblPos: map[string]token.Pos{}}
+		cfg := boundsCfg(bc)
+		orig := cfg.Model
+		cfg.Model = func(c *simClient, x *Exec, st *State, fr *Frame, site ssa.CallInstruction, nm string, callee *ssa.Function, fnTerm *Term, args []*Term) (bool, []CallOut) {
+			if nm == "io.LimitReader" && len(args) == 2 {
+				c.g(st).flags["inflate.limit"] = args[1]
+			}
+			return orig(c, x, st, fr, site, nm, callee, fnTerm, args)
+		}
+		bc.simClient = simClient{p: p, cfg: cfg}
+		x := newExec(p, bc)
+		x.StrictConv = true
+		x.HavocSlicePhis = true
+		st := newState(&simGhost{flags: map[string]*Term{}})
+		var args []*Term
+		for _, pa := range fn.Params {
+			args = append(args, mk("param", funcKey(fn)+"."+pa.Name(), pa.Type()))
+		}
+		boundsPreconditions(bc, fn, st, args, nil)
+		key := name + " / the inflate limit leaves room to reach the end of the stream"
+		bad := ""
+		for _, res := range x.RunFunc(fn, args, nil, st, "", 0) {
+			if res.Panic || len(res.Vals) == 0 || res.Vals[0].isNilConst() {
+				continue
+			}
+			lim := bc.g(res.St).flags["inflate.limit"]
+			if lim == nil {
+				continue
+			}
+			for _, k := range sortedFactKeys(res.St) {
+				t := res.St.fterm[k]
+				if t.Op != "eq" || !res.St.facts[k] || len(t.Args) != 2 {
+					continue
+				}
+				var total *Term
+				for i := 0; i < 2; i++ {
+					if a := t.Args[i]; a.Op == "len" && a.Args[0].Op == "bufbytes" {
+						total = t.Args[1-i]
+					}
+				}
+				if total == nil {
+					continue
+				}
+				n++
+				if !provedLe(res.St, total, lim) {
+					bad = "the inflated data is limited to " + lim.String() + " although the output must reach " + total.String() + " bytes in total"
+				}
+			}
+		}
+		if bad != "" {
+			r.violate("INFLATE-SLACK", key, p.pos(fn.Pos()), bad+": with the limit equal to the exact payload the zlib reader may never be asked past its last byte, the stream's trailer then stays unread and the block's on-disk length comes out short (the next block is looked for inside this one)", nil)
+		} else if n > 0 {
+			r.ok("INFLATE-SLACK", key, "limit >= total required of the output on every successful path")
+		}
+	}
+	r.floor("INFLATE-SLACK", n, 1, "successful inflate paths relating the limit to the required total")
+}
